@@ -1,4 +1,5 @@
 import asyncio
+import codecs
 import enum
 import io
 import json
@@ -750,6 +751,24 @@ class TextIOPayload(IOBasePayload):
             *args,
             **kwargs,
         )
+
+    @property
+    def size(self) -> int | None:
+        """Size of the payload in bytes, if it is known.
+
+        What is sent is the text, encoded with the payload's encoding. That is as
+        long as what is left of the file only if the file is decoded with the same
+        encoding; with another one the size is not known in advance.
+        """
+        size = super().size
+        file_encoding = getattr(self._value, "encoding", None)
+        try:
+            same = file_encoding is not None and (
+                codecs.lookup(file_encoding).name == codecs.lookup(self._encoding).name
+            )
+        except LookupError:
+            same = False
+        return size if same else None
 
     def _read_and_available_len(
         self, remaining_content_len: int | None
